@@ -16,12 +16,13 @@ import traceback
 from harness import core
 from harness.core import to_dec2
 
-STATE_POINTS = ({'T': 298.15, 'P': 1.0, 'x': 0.25, 'V': 0.03, 'n': 1.5},
+# both pressures differ from 1 bar: an attached or missing GasPressureAdj shows in S and G
+STATE_POINTS = ({'T': 298.15, 'P': 0.5, 'x': 0.25, 'V': 0.03, 'n': 1.5},
                 {'T': 612.5, 'P': 2.5, 'x': 0.75, 'V': 0.011, 'n': 0.75})
 
 # attributes that never enter a thermodynamic getter (labels); everything else is assumed to
 # feed the getters of the node or of its ancestors (a failed feeding attribute masks them)
-LABELS = {'name', 'notes', 'smiles', 'elements', 'phase', 'id', 'n_sites', 'D0'}
+LABELS = {'name', 'notes', 'smiles', 'elements', 'phase', 'id', 'n_sites', 'D0', 'add_gas_P_adj'}
 
 
 # --------------------------------------------------------------------------
@@ -193,16 +194,25 @@ class Builder:
         r = self.rnd
         misc = list(kids.get('misc_models', []))
         has_adj = any(type(m).__name__ == 'GasPressureAdj' for m in misc)
-        # the constructor appends a GasPressureAdj to gas species: keep the object equal to the
-        # abstract tree by making it a gas exactly when the tree holds the adjustment
-        phase = 'G' if has_adj else r.choice(['S', 's', 'L'])
-        if hint.get('phase_required') and not has_adj:
-            phase = 'S'
-        kw = {'name': self._uid(stem), 'phase': phase, 'elements': _elements(r), 'smiles': _smiles(r),
-              'notes': _notes(r), 'misc_models': misc if misc else None}
+        phase, add = self._phase_option(has_adj, bool(hint.get('phase_required')))
+        kw = {'name': self._uid(stem), 'phase': phase, 'add_gas_P_adj': add, 'elements': _elements(r),
+              'smiles': _smiles(r), 'notes': _notes(r), 'misc_models': misc if misc else None}
         if kids.get('model'):
             kw['model'] = kids['model'][0]
         return kw
+
+    def _phase_option(self, has_adj, need_str):
+        """(phase, add_gas_P_adj) over every phase spelling the constructor accepts, crossed with
+        the option, restricted to the combinations for which the constructor leaves the given
+        misc_models as the abstract tree has them (a gas with add_gas_P_adj=True gets a
+        GasPressureAdj appended unless one is already there)."""
+        r = self.rnd
+        gas = r.choice(GAS_SPELLINGS)
+        other = r.choice(['S', 's', 'L', 'surface'] if need_str else ['S', 's', 'L', 'surface', None])
+        if has_adj:
+            # adjustment given explicitly: kept by every combination
+            return r.choice([(gas, True), (gas, True), (gas, False), (other, True), (other, False)])
+        return r.choice([(gas, False), (gas, False), (other, True), (other, False)])
 
     def b_StatMech(self, kids, hint):
         from pmutt.statmech import StatMech
@@ -264,7 +274,8 @@ class Builder:
         has_adj = any(type(m).__name__ == 'GasPressureAdj' for m in misc)
         i = hint.get('index', 0)
         els = [{'H': 2}, {'O': 2}, {'H': 2, 'O': 1}][i % 3]
-        return Reference(name=self._uid('REF'), phase='G' if has_adj else 'S', elements=els,
+        phase, add = self._phase_option(has_adj, False)
+        return Reference(name=self._uid('REF'), phase=phase, add_gas_P_adj=add, elements=els,
                          smiles=_smiles(r), notes=_notes(r), model=kids['model'][0],
                          misc_models=misc if misc else None,
                          T_ref=hint.get('T_ref', 298.15), HoRT_ref=_f(r, -90., 5.))
@@ -280,7 +291,7 @@ class Builder:
         for i, ref in enumerate(refs):
             ref.elements = dict(base[i % 3])
             ref.T_ref = 298.15
-        return References(references=refs, descriptor='elements')
+        return make_references(refs, self.rnd, self.rnd.choice(['fitted', 'explicit', 'explicit', 'stale', 'stale']))
 
     # ---- reactions
     def _rxn_kwargs(self, kids):
@@ -325,6 +336,30 @@ class Builder:
         r = self.rnd
         return LSR(slope=_f(r, 0.1, 0.9), intercept=_f(r, -20., 20.), reaction=kids['reaction'][0],
                    surf_species=kids['surf_species'][0], gas_species=kids['gas_species'][0], notes=_notes(r))
+
+
+GAS_SPELLINGS = ['g', 'G', 'gas', 'Gas', 'GAS']
+
+
+def make_references(refs, rnd, state):
+    """A References object over the given Reference species in one of the states a user can
+    reach: 'fitted' (offset = least-squares fit of the references), 'explicit' (offset dictionary
+    and T_ref handed in next to the references: the constructor does not fit), 'stale' (fitted,
+    then edited without refitting: a species appended after the fit, or a reference enthalpy
+    changed).  In the last two the offset is NOT the fit of the current references."""
+    from pmutt.empirical.references import References
+    if state == 'explicit':
+        return References(offset={'H': _f(rnd, -9., 9.), 'O': _f(rnd, -9., 9.)}, references=refs,
+                          descriptor='elements', T_ref=_f(rnd, 250., 400.))
+    if state == 'stale':
+        if len(refs) >= 2 and rnd.random() < 0.6:
+            obj = References(references=list(refs[:-1]), descriptor='elements')
+            obj.append(refs[-1])
+        else:
+            obj = References(references=list(refs), descriptor='elements')
+            refs[0].HoRT_ref = refs[0].HoRT_ref + _f(rnd, 3., 30.)
+        return obj
+    return References(references=refs, descriptor='elements')
 
 
 # --------------------------------------------------------------------------
@@ -744,7 +779,50 @@ def _example(name):
     return get
 
 
+def _extra_gas_noadj(cls_name, phase):
+    """Gas species (given phase spelling) whose automatic pressure adjustment was switched off."""
+    def get(rnd):
+        tree = {'c': cls_name, 'k': {'model': [], 'cat_site': [], 'misc_models': [],
+                                     'nasas': [{'c': 'SingleNasa9', 'k': []}, {'c': 'SingleNasa9', 'k': []}]}}
+        b = Builder(_EXTRA_SCHEMA, rnd)
+        b._phase_option = lambda has_adj, need_str: (phase, False)
+        return b.build(tree)
+    return get
+
+
+def _extra_references(state, inside_statmech):
+    def get(rnd):
+        b = Builder(_EXTRA_SCHEMA, rnd)
+        ref = {'c': 'Reference', 'k': {'model': [_min_statmech()], 'misc_models': []}}
+        refs = [b.build(ref), b.build(ref), b.build(ref)]
+        base = [{'H': 2}, {'O': 2}, {'H': 2, 'O': 1}]
+        for i, x in enumerate(refs):
+            x.elements = dict(base[i])
+            x.T_ref = 298.15
+        obj = make_references(refs, rnd, state)
+        if not inside_statmech:
+            return obj
+        sm = b.build(_min_statmech())
+        sm.references = obj
+        sm.elements = {'H': 2, 'O': 2}
+        return sm
+    return get
+
+
+def _min_statmech():
+    leaf = lambda c: [{'c': c, 'k': []}]
+    return {'c': 'StatMech', 'k': {'trans_model': leaf('FreeTrans'), 'vib_model': leaf('HarmonicVib'),
+                                   'rot_model': leaf('RigidRotor'), 'elec_model': leaf('GroundStateElec'),
+                                   'nucl_model': leaf('EmptyNucl'), 'references': [], 'misc_models': []}}
+
+
+_EXTRA_SCHEMA = {}           # filled by run_lifecycle (the schema comes from TLC)
 EXTRAS = {'lsr_floats': _extra_lsr_floats, 'reaction_unnamed': _extra_reaction_unnamed}
+for _c, _ph in (('Nasa', 'G'), ('Nasa', 'Gas'), ('Shomate', 'GAS'), ('Nasa9', 'G'), ('Shomate', 'gas')):
+    EXTRAS['gas_noadj:%s:%s' % (_c, _ph)] = _extra_gas_noadj(_c, _ph)
+for _st in ('explicit', 'stale'):
+    EXTRAS['references:%s' % _st] = _extra_references(_st, False)
+    EXTRAS['statmech_references:%s' % _st] = _extra_references(_st, True)
 for _n in ('O2_nasa', 'H2_shomate', 'H2_ref', 'H2O_ref', 'refs', 'H2O_statmech', 'H2O_TS_statmech', 'rxn'):
     EXTRAS['example:' + _n] = _example(_n)
 
@@ -756,6 +834,8 @@ def run_lifecycle(case, schema, attrs):
     rnd = random.Random(case['seed'])
     walker = Walker(schema, attrs)
     if 'extra' in case:
+        _EXTRA_SCHEMA.clear()
+        _EXTRA_SCHEMA.update(schema)
         obj = copy.deepcopy(EXTRAS[case['extra']](rnd))
         tree = tree_of(obj, schema)
     else:
